@@ -8,7 +8,9 @@ pub mod c09;
 pub mod c11;
 pub mod c12;
 pub mod c13;
+pub mod c15;
 pub mod c16;
+pub mod c17;
 pub mod c18;
 
 pub fn dispatch(ctx: &Ctx, rep: &mut Report) -> bool {
@@ -21,7 +23,9 @@ pub fn dispatch(ctx: &Ctx, rep: &mut Report) -> bool {
         "C11" => c11::run(ctx, rep),
         "C12" => c12::run(ctx, rep),
         "C13" => c13::run(ctx, rep),
+        "C15" => c15::run(ctx, rep),
         "C16" => c16::run(ctx, rep),
+        "C17" => c17::run(ctx, rep),
         "C18" => c18::run(ctx, rep),
         _ => return false,
     }
